@@ -88,6 +88,7 @@ func (g *GoBackend) Generate(req *plugin.Request, log backend.LogFunc) *plugin.R
 	g.req = req
 	g.res = plugin.NewResponse()
 	g.log = log
+	g.err = nil // an error of an earlier run in the same process is not this run's
 	g.prepareUtilities()
 	if g.utils.Features().TrimIDL {
 		g.log.Warn("You Are Using IDL Trimmer")
